@@ -21,13 +21,16 @@ Theorem C12_accounting_invariant : forall c xs s,
 Proof. intros c xs s H. eapply run_PInv; [apply PInv0|exact H]. Qed.
 
 (* mode rules read off the acceptor *)
-Theorem C12_wait_one_at_a_time : forall g s t id s',
-  ostep_do {| o_mode := MWait; o_guard := g |} s (OStart t id) = Some s' ->
+Theorem C12_wait_one_at_a_time : forall g sc s t id s',
+  ostep_do {| o_mode := MWait; o_guard := g; o_selfcancel := sc |} s (OStart t id) = Some s' ->
   active s = [] /\ exists rest, q s = id :: rest.
 Proof. exact wait_one_at_a_time. Qed.
 
+(* a run ends "cancelled" only in cancel mode because a newer put is waiting - or because its own
+   coroutine raised CancelledError (o_selfcancel: the puts whose coroutine does that) *)
 Theorem C12_cancel_only_for_newer_event : forall c s t id s',
-  ostep_do c s (OEnd t id OCancelled) = Some s' -> o_mode c = MCancel /\ q s <> [].
+  ostep_do c s (OEnd t id OCancelled) = Some s' ->
+  In id (o_selfcancel c) \/ (o_mode c = MCancel /\ q s <> []).
 Proof. exact cancel_only_for_newer_event. Qed.
 
 Theorem C12_guard_time_exact : forall c s t n s',
@@ -50,7 +53,7 @@ Proof. exact wait_runs_every_event_in_order. Qed.
    quiescent, has its one result (success or error): it always runs to completion *)
 Theorem C12_cancel_most_recent_completes : forall c xs s p last,
   o_mode c = MCancel -> orun c ostate0 xs = Some s -> quiescent s = true ->
-  puts_of xs = p ++ [last] ->
+  puts_of xs = p ++ [last] -> ~ In last (o_selfcancel c) ->
   count_results last xs = 1%nat /\ forall t, ~ In (OResult t last OCancelled) xs.
 Proof. exact cancel_most_recent_completes. Qed.
 
@@ -78,7 +81,7 @@ Proof. exact start_mode_every_event_runs. Qed.
 
 (* non-vacuity: cancel mode, the second put cancels the first run; guard time 100 ms *)
 Example C12_nonvacuous :
-  let c := {| o_mode := MCancel; o_guard := 100000 |} in
+  let c := {| o_mode := MCancel; o_guard := 100000; o_selfcancel := [] |} in
   let xs := [OPut 0 1; OOut 0 1; OStart 0 1; OPut 50000 2; OEnd 50000 1 OCancelled;
              OResult 50000 1 OCancelled; OOut 150000 0; OOut 150000 1; OStart 150000 2;
              OEnd 250000 2 OSuccess; OResult 250000 2 OSuccess; OStop 300000; OOut 350000 0] in
